@@ -19,11 +19,18 @@ UNIVERSES = {
     "etf+es": (("E", 1.0, 1.0, 0.0), ("ES", 50.0, 0.0, 0.1)),
     "spot+spot": (("S", 1.0, 1.0, 0.0), ("T", 2.0, 1.0, 0.0)),
     "halfmult": (("H", 0.5, 1.0, 0.0), ("F3", 0.5, 0.0, 0.5)),
+    # three contracts (a target may then name only some of the held ones)
+    "three": (("S", 1.0, 1.0, 0.0), ("F", 2.0, 0.0, 0.25), ("T", 2.0, 1.0, 0.0)),
 }
 FEES = [(0.0, 0.0), (1.0, 1.0 / 64), (1.0, 0.0), (0.0, 1.0 / 64), (2.0, 1.0 / 128), (0.0, 0.0002)]
 BASE_QUOTES = [(100.0, 100.0), (100.0, 104.0), (92.0, 96.0), (112.0, 112.0), (48.0, 52.0)]
 TRADE_SIZES = [1.0, -1.0, 2.0, -2.0]
 REBALANCES = [("weight", (0.5, 0.25)), ("weight", (-0.5, 0.0)), ("nr-contracts", (1.0, -1.0))]
+REBALANCES3 = [("weight", (0.5, 0.25, 0.125)), ("weight", (-0.5, 0.0, 0.25)), ("nr-contracts", (1.0, -1.0, 0.0))]
+
+
+def rebalances_for(n):
+    return REBALANCES if n == 2 else REBALANCES3
 PALETTES = [(1.0, 65536.0), (0.5, 32768.0), (2.0, 131072.0), (1.375, 100000.0)]
 
 
@@ -39,20 +46,20 @@ def quotes_of(scale):
     return [(b * scale, a * scale) for b, a in BASE_QUOTES]
 
 
-def alphabet(with_rebalance=True, nquotes=len(BASE_QUOTES), marks=True):
+def alphabet(with_rebalance=True, nquotes=len(BASE_QUOTES), marks=True, ncontracts=2):
     """Simplest-first so that the first counterexample is the shortest."""
     ops = []
-    for ci in (0, 1):
+    for ci in range(ncontracts):
         for qi in range(nquotes):
             ops.append(("q", ci, qi))
-    for ci in (0, 1):
-        for dq in TRADE_SIZES:
+    for ci in range(ncontracts):
+        for dq in (TRADE_SIZES if ncontracts == 2 else TRADE_SIZES[:3]):
             ops.append(("t", ci, dq))
     ops.append(("v",))
     if marks:
         ops.append(("m",))
-        ops.append(("m1", 0))
-        ops.append(("m1", 1))
+        for ci in range(ncontracts):
+            ops.append(("m1", ci))
     if with_rebalance:
         for ri in range(len(REBALANCES)):
             ops.append(("r", ri))
@@ -178,7 +185,7 @@ def apply_op(b, ref, cs, op, scale, fee):
             problems.append(("C05", "margin of %s after marking_to_market(%s) is %r, expected %r"
                              % (c.symbol, c.symbol, got_m, float(exp_m))))
     elif kind == "r":
-        measure, alloc = REBALANCES[op[1]]
+        measure, alloc = rebalances_for(len(cs))[op[1]]
         now = (b._last_accrual or T0) + timedelta(days=1)
         rb = Rebalancing(contracts=list(cs), allocation=list(alloc), measure=measure, time=now)
         books = {c.symbol: (b.exchange[c].bid_price, b.exchange[c].ask_price) for c in cs}
